@@ -50,6 +50,20 @@ def check_lookups(chk, model, A, ids, label, spec, hist_desc):
         except Exception as e:  # noqa: BLE001
             got = e
         chk.note_case((spec["name"], label, u), nontrivial=not owners or True)
+        # the public lookup (MelodyModel.by_uuid) must agree with the loader's — at every step, so that anything it remembers from an
+        # earlier call is put to the test
+        try:
+            got_pub = model.by_uuid(u)._element
+        except KeyError:
+            got_pub = None
+        except Exception as e:  # noqa: BLE001
+            got_pub = e
+        in_semantic = not owners or loader.find_fragment(owners[0]).suffix in graph.SEMANTIC     # by_uuid wraps diagram ids differently, by design
+        if in_semantic and got_pub is not got and not (isinstance(got, Exception) and isinstance(got_pub, Exception)):
+            what = xtype_name(A, got_pub) if hasattr(got_pub, "tag") else repr(got_pub)
+            chk.violation(f"by_uuid-differs-from-loader:{what}", f"model.by_uuid({u}) gives {what}, the loader's lookup gives {got!r} (after: {label})",
+                          {"model": spec["name"], "uuid": u, "history": hist_desc, "after": label, "history_index": spec.get("history_index")})
+            bad += 1
         if not owners and got is not None:
             what = xtype_name(A, got) if hasattr(got, "tag") else repr(got)
             chk.violation(f"ghost:{what}", f"lookup of {u} returns a {what} element that is in no loaded fragment (after: {label})",
